@@ -75,6 +75,13 @@ def frame_array(case, t) -> np.ndarray:
     return a
 
 
+def image_array(case, t) -> np.ndarray:
+    """a raw image for frame t (the --input-image-dir of `geff convert-ctc`): every pixel distinct, frames distinct"""
+    shape = frame_shape(case)
+    n = int(np.prod(shape))
+    return ((np.arange(n, dtype="int64") * 7 + 13 * t + 1) % 60000).astype("uint16").reshape(shape)
+
+
 def exact_centroid(r) -> list:
     """Mean pixel coordinate of a union of disjoint boxes, per axis, as Fractions."""
     nd = len(r["boxes"][0][0])
@@ -206,6 +213,7 @@ def variants(rng, c):
         c["pre_seg"] = rng.choice([2, 3])
     if c["seg"] in ("none", "path") and rng.random() < 0.15:
         c["via"] = "cli"
+        c["img"] = rng.random() < 0.6           # --input-image-dir / --output-image-path (ctc_tiffs_to_zarr)
     return c
 
 
@@ -271,6 +279,8 @@ def generate(rng: random.Random, tier: str):
     for name, T, pres, par in fixed[:5]:
         ds = dataset_from_presence(r0, T, pres, par)
         yield base_case(**ds, seg="path", via="cli", tczyx=True, table_name="res_track.txt", prefix="mask", ctc_rel="01_RES", origin="fixed-cli:" + name)
+        yield base_case(**ds, seg="none", via="cli", img=True, tczyx=name != "one-row table", fmt=3 if name == "single child" else 2,
+                        origin="fixed-cli-image:" + name)
         yield base_case(**ds, pre_geff=2, overwrite=False, origin="fixed-exists:" + name)
         yield base_case(**ds, pre_geff=2, overwrite=True, via="cli", fmt=3, origin="fixed-cli-overwrite:" + name)
         yield base_case(**ds, pre_geff=3, overwrite=True, seg="path", pre_seg=2, origin="fixed-overwrite:" + name)
@@ -426,6 +436,13 @@ def run_impl(c):
                     args.append("--tczyx")
                 if c["overwrite"]:
                     args.append("--overwrite")
+                if c.get("img"):
+                    import tifffile
+
+                    (root / "images").mkdir()
+                    for t in range(len(c["frames"])):
+                        tifffile.imwrite(root / "images" / f"t{t:03d}.tif", image_array(c, t))
+                    args += ["--input-image-dir", str(root / "images"), "--output-image-path", str(root / "image.zarr")]
                 r = CliRunner().invoke(app, args)
                 if r.exception is not None and not isinstance(r.exception, SystemExit):
                     raise r.exception
@@ -447,6 +464,14 @@ def run_impl(c):
             return obs
         # ---- observations of a successful conversion
         obs["fmt_geff"] = zarr_fmt_of(geff_path)
+        if c.get("img") and c["via"] == "cli":
+            try:
+                data = zarr.open_array(str(root / "image.zarr"), mode="r")[...]
+                stacked = np.stack([image_array(c, t) for t in range(len(c["frames"]))])
+                obs["img"] = {"shape": list(data.shape), "dtype": str(data.dtype), "fmt": zarr_fmt_of(root / "image.zarr"),
+                              "equal": bool(data.size == stacked.size and np.array_equal(data.reshape(stacked.shape), stacked))}
+            except Exception as e:
+                obs["img"] = {"error": f"{type(e).__name__}: {e}"[:200]}
         val = {}
         try:
             validate_structure(geff_path)
@@ -517,7 +542,7 @@ def run_impl(c):
 # --------------------------------------------------------------------------
 # Coq terms
 # --------------------------------------------------------------------------
-def coq_input(c, pre_coq: str) -> str | None:
+def coq_input(c, pre_coq: str, intent=None) -> str | None:
     root_comps = ["ROOT"]
     frames = []
     for fr in c["frames"]:
@@ -540,13 +565,16 @@ def coq_input(c, pre_coq: str) -> str | None:
            "mem": "(SegStore None)"}[c["seg"]]
     d = (f"(mkctc {cbool(c['table_name'] != 'nodir')} {table} {cbool(c['ndim'] == 3)} {clist(frame_shape(c), cnat)} {clist(frames)} "
          f"{geff} {seg} {cbool(c['pre_seg'] is not None)} {cbool(c['tczyx'])} {cbool(c['overwrite'])})")
-    return f"(IConv {d} {pre_coq})"
+    if intent is None:
+        return f"(IConv {d} {pre_coq})"
+    return f"(IConvW {cbool(intent)} {d} {pre_coq})"
 
 
 def coq_case(c, o):
     if "pre_coq" not in o:
         return None
-    inp = coq_input(c, o["pre_coq"])
+    # the oracle's gate consistent() travels with the case: Coq decides `consistent` on the dataset it was given and must agree
+    inp = coq_input(c, o["pre_coq"], intent=consistent(c, pixel_regions(c)))
     if inp is None:
         return None
     if o["res"][0] != "ok":
@@ -662,6 +690,8 @@ def oracle(c, o):
     # (a label array replaced without overwrite is undocumented either way: a correspondence mismatch, not an oracle failure)
     if o["back"][0] != "ok":
         return fail(f"read_to_memory of the converted geff raised {o['back'][2]}", why="read-raises")
+    if o.get("fmt_geff") != c["fmt"]:
+        return fail(f"zarr_format={c['fmt']} requested, the geff is stored in format {o.get('fmt_geff')}", why="zarr-format", part="geff")
     g = o["graph"]
     nodes, edges = expected_graph(c, regs)
     props = g["props"]
@@ -722,6 +752,9 @@ def oracle(c, o):
         if s["shape"] != exp_shape or not s["equal"] or s["dtype"] != c["dtype"]:
             return fail(f"exported label volume {s}, expected the stacked frames of shape {exp_shape} dtype {c['dtype']}",
                         why="segmentation", part="volume")
+        if c["seg"] != "mem" and s.get("fmt") != c["fmt"]:
+            return fail(f"zarr_format={c['fmt']} requested, the exported label volume is stored in format {s.get('fmt')}", why="zarr-format",
+                        part="segmentation")
         if c["seg"] != "mem":
             if len(g["related"]) != 1 or g["related"][0][0] != "labels" or g["related"][0][2] != "tracklet_id":
                 return fail(f"related objects {g['related']}: expected one labels object keyed by tracklet_id", why="segmentation", part="related")
@@ -729,6 +762,16 @@ def oracle(c, o):
                 return fail(f"recorded related-object path {g['related'][0][1]!r} does not resolve to the label volume", why="segmentation", part="path")
     elif g["related"]:
         return fail(f"related objects {g['related']} recorded without a segmentation target", why="segmentation", part="spurious")
+    # image export of the command line (ctc_tiffs_to_zarr; an anchor of the property, beyond its statement: the exported image
+    # volume is the stacked input images, laid out and formatted like the label volume)
+    if c.get("img") and c["via"] == "cli":
+        im = o.get("img") or {"error": "not observed"}
+        fs = list(frame_shape(c))
+        exp_shape = [len(c["frames"])] + ([1] * (4 - len(fs)) if c["tczyx"] else []) + fs
+        if "error" in im or im["shape"] != exp_shape or not im["equal"] or im["dtype"] != "uint16":
+            return fail(f"exported image volume {im}, expected the stacked images of shape {exp_shape}", why="image", part="volume")
+        if im["fmt"] != c["fmt"]:
+            return fail(f"zarr_format={c['fmt']} requested, the exported image volume is stored in format {im['fmt']}", why="zarr-format", part="image")
     # tracklet annotation
     if g["tracklet_prop"] != "tracklet_id":
         return fail(f"declared tracklet property is {g['tracklet_prop']!r}", why="metadata", part="tracklet-prop")
